@@ -160,8 +160,8 @@ def sendStoredLoop (c : C) : List (Nat × Pkt) → C × List (Nat × Pkt)
       sendStoredLoop (releaseIfUsed c id) rest
     else
       let c := if c.s.sendMax.isSome then
-          (if c.s.sendCount ≥ 65535 then c.setPanic "core.rs:send_stored:publish_send_count+=1" else c)
-          |> fun c => { c with s := { c.s with sendCount := (c.s.sendCount + 1) % 65536 } }
+          (if c.s.sendCount ≥ 4294967295 then c.setPanic "core.rs:send_stored:publish_send_count+=1" else c)
+          |> fun c => { c with s := { c.s with sendCount := (c.s.sendCount + 1) % 4294967296 } }
         else c
       let c := c.push (.send p none)
       let r := sendStoredLoop c rest
@@ -388,8 +388,8 @@ def autoAlias (c : C) (p : Pkt) : C × Pkt :=
 
 def psV5PublishTail (c : C) (p : Pkt) (rel : Option Nat) : C :=
   let c := if p.qos > 0 ∧ c.s.sendMax.isSome then
-      (if c.s.sendCount ≥ 65535 then c.setPanic "core.rs:process_send_v5_0_publish:publish_send_count+=1" else c)
-      |> fun c => { c with s := { c.s with sendCount := (c.s.sendCount + 1) % 65536 } }
+      (if c.s.sendCount ≥ 4294967295 then c.setPanic "core.rs:process_send_v5_0_publish:publish_send_count+=1" else c)
+      |> fun c => { c with s := { c.s with sendCount := (c.s.sendCount + 1) % 4294967296 } }
     else c
   if c.s.status = .connected then sendPostProcess (c.push (.send p rel)) else c
 
